@@ -9,7 +9,7 @@
     [st_supply] is the model's bank supply (mint / burn), [st_win] the ghost "incoming amount
     completed since the last window reset".  Asset parameters do not change inside a history
     (there is no parameter-update operation; [reachable_invariant] states [st_params] stays [P]). *)
-From Irismod Require Import Htlc.Model Htlc.Proofs Htlc.Examples.
+From Irismod Require Import Htlc.Model Htlc.Proofs Htlc.Examples Htlc.Check Htlc.Sound.
 
 (** ** Inv_C04 holds in every reachable state (induction over the history: [Inv] holds at
     genesis and is preserved by every message and every block boundary) *)
@@ -89,6 +89,17 @@ Example escrow_eq_open_needs_recipient_not_escrow :
   let s := reachable exP exB (ts0 * ns) ops in
   bal (st_bank s) ESC 4 = 100 /\ wsum (w_esc 4) (st_contracts s) = 0.
 Proof. vm_compute. split; reflexivity. Qed.
+
+(** ** What the check evaluates lies inside these theorems: for every case accepted by the decidable
+    guard [hyps_b] (evaluated by [vm_compute] on every case; a case outside it fails the check), the
+    model state the implementation's observations are compared with after ANY number [n] of steps
+    satisfies the invariant, hence all of the above. *)
+Theorem c04_checked_states_satisfy_invariant :
+  forall (k : case) (n : nat), hyps_b k = true ->
+    Inv (case_state k n) /\ Strict (case_state k n) /\ Inv_C04 (case_state k n)
+    /\ st_params (case_state k n) = k_params k.
+Proof. exact checked_states_satisfy_invariant. Qed.
+Print Assumptions c04_checked_states_satisfy_invariant.
 
 (** ** Non-vacuity: the concrete history of [Htlc/Examples.v] satisfies the hypotheses and reaches
     non-trivial values of every counter (an incoming transfer of 200 is pending, then completed;
